@@ -5,12 +5,19 @@ go 1.22.0
 toolchain go1.23.5
 
 require (
+	github.com/EliCDavis/jbtf v0.2.0
 	github.com/EliCDavis/polyform v0.0.0
 	github.com/EliCDavis/vector v1.8.0
 	golang.org/x/tools v0.29.0
 )
 
 require (
+	github.com/EliCDavis/bitlib v1.2.0 // indirect
+	github.com/EliCDavis/iter v1.0.2 // indirect
+	github.com/fogleman/gg v1.3.0 // indirect
+	github.com/golang/freetype v0.0.0-20170609003504-e2365dfdc4a0 // indirect
+	github.com/gorilla/websocket v1.5.3 // indirect
+	golang.org/x/image v0.18.0 // indirect
 	golang.org/x/mod v0.22.0 // indirect
 	golang.org/x/sync v0.10.0 // indirect
 )
